@@ -44,7 +44,7 @@ def assemble(prop, verdict, runs, owns, tlc_props, rule, assumptions, need):
 
 def run(tier, seed, verdict):
     quick = tier != "thorough"
-    runs = [ar.ArrayRun("MC_C01_quick.cfg" if quick else "MC_C01.cfg", seed, "values", stride=2 if quick else 12)]
+    runs = [ar.ArrayRun("MC_C01_quick.cfg" if quick else "MC_C01.cfg", seed, "values", stride=3 if quick else 12)]
     return assemble(
         "C01", verdict, runs, lambda f: True,
         ["ShapeOK", "RefusedUnchanged", "AppendPreserves", "ResizePreserves", "AssignFrame"],
